@@ -1,0 +1,28 @@
+//go:build verif
+
+// Contract for protocolV2.IOLoop, the per-connection command loop of protocol_v2.go (C09), checked by nsqvc.
+// Comment-only file.
+
+package nsqd
+
+// lExecCalls / lExecErr : number of Exec calls and the error of the most recent one (set by Exec's contract).
+// lReadErr              : error of the most recent bufio.Reader.ReadSlice (set in .trusted/lpump.spec).
+// lSendErr              : result of the most recent protocolV2.Send (set by its contract).
+//@ ghost lExecCalls int
+//@ ghost lExecErr error
+
+//@ pred lIsFatal(err error) := dyntype(err) == typetag("*protocol.FatalClientErr")
+
+// Call protocol (tcpServer.Handle): c is the *clientV2 that NewClient built for this connection.
+//@ pred lLoopCtx(p *protocolV2, cl *clientV2) := lConnOK(cl) && validPubCtx(p, cl) && hasChannel(cl) && (cl.Channel != nil ==> lChanUsable(cl.Channel))
+
+//@ func (p *protocolV2) IOLoop(c protocol.Client) error
+//@   props C09
+//@   requires p != nil && p.nsqd != nil && dyntype(c) == typetag("*clientV2") && lLoopCtx(p, unbox(c, "*clientV2"))
+//  Exec's precondition len(params) >= 1 ("Exec is called with at least the command word") is the obligation
+//  requires[(*nsqd.protocolV2).Exec.0] generated at the call.
+//@   ensures[ends-only-on-io-error-or-fatal] lReadErr != nil || lSendErr != nil || lIsFatal(lExecErr)
+//@   ensures[cleanup-this-client] unbox(c, "*clientV2").Channel != nil ==> lRemoveChan == unbox(c, "*clientV2").Channel && lRemoveID == unbox(c, "*clientV2").ID
+//@   loop 0
+//@     invariant[context] lLoopCtx(p, client) && client == unbox(c, "*clientV2")
+//@     invariant[fatal-ends-loop] lExecCalls != old(lExecCalls) ==> !lIsFatal(lExecErr)
